@@ -23,12 +23,33 @@ type FakeConn struct {
 	Closed    bool
 	Deadlines []time.Time
 	Reads     int
+	Block     bool // with no chunk left, Read waits for Feed instead of reporting Fin
+	Waiting   int  // readers currently waiting
+	cond      *sync.Cond
+}
+
+// Wake is called (with mu held or not) after Chunks / Block / Closed changed.
+func (f *FakeConn) wake() {
+	if f.cond != nil {
+		f.cond.Broadcast()
+	}
 }
 
 func (f *FakeConn) Read(b []byte) (int, error) {
 	f.mu.Lock()
 	defer f.mu.Unlock()
 	f.Reads++
+	if f.Closed {
+		return 0, net.ErrClosed
+	}
+	for len(f.Chunks) == 0 && f.Block && !f.Closed {
+		if f.cond == nil {
+			f.cond = sync.NewCond(&f.mu)
+		}
+		f.Waiting++
+		f.cond.Wait()
+		f.Waiting--
+	}
 	if f.Closed {
 		return 0, net.ErrClosed
 	}
@@ -67,7 +88,33 @@ func (f *FakeConn) Close() error {
 	f.mu.Lock()
 	defer f.mu.Unlock()
 	f.Closed = true
+	f.wake()
 	return nil
+}
+
+// SetBlock switches the waiting mode; Append adds client bytes and wakes a waiting reader.
+func (f *FakeConn) SetBlock(b bool) {
+	f.mu.Lock()
+	f.Block = b
+	f.wake()
+	f.mu.Unlock()
+}
+
+func (f *FakeConn) Append(chunks [][]byte, fin string) {
+	f.mu.Lock()
+	for _, c := range chunks {
+		f.Chunks = append(f.Chunks, append([]byte{}, c...))
+	}
+	f.Fin = fin
+	f.Block = false
+	f.wake()
+	f.mu.Unlock()
+}
+
+func (f *FakeConn) WaitingReaders() int {
+	f.mu.Lock()
+	defer f.mu.Unlock()
+	return f.Waiting
 }
 
 type fakeAddr struct{}
